@@ -306,8 +306,59 @@ func genPrintLazy(tier string, r *Rng, emit func(Case)) {
 	}
 }
 
+// genC12Empty: nothing to print but possibly a line feed (empty views, the zero number, positions beyond the
+// digits), to a writer that fails at once in each mode.
+func genC12Empty(tier string, r *Rng, emit func(Case)) {
+	type win struct {
+		raw    []int
+		ws, we int
+	}
+	wins := []win{{[]int{1, 2, 3}, -1, 0}, {[]int{1, 2, 3}, 5, -1}, {nil, -1, -1}, {[]int{4, 5}, 2, 2}, {[]int{7}, -1, -1}}
+	for _, ver := range allVers {
+		for _, w := range wins {
+			for _, lf := range []bool{true, false} {
+				for fn := 0; fn < 2; fn++ {
+					if fn == 1 && ver != "v3" {
+						continue
+					}
+					var t toks
+					t.s("T")
+					t.ints(w.raw)
+					t.ints(nil)
+					t.i(r.Pick([]int{0, 1, 3}))
+					t.i(w.ws)
+					t.i(w.we)
+					t.i(1)
+					a := r.Pick([]int{0, 4, 10})
+					t.i(a)
+					t.i(a + r.Range(1, 5))
+					t.i(r.Pick([]int{0, 10}))
+					t.i(r.Pick([]int{0, 5}))
+					t.bool(r.Bool())
+					t.i('.')
+					if ver == "v3" {
+						t.bool(r.Bool())
+						t.bool(lf)
+					} else { // no such options before v3: leading decimal point always, never a trailing line feed
+						t.bool(true)
+						t.bool(false)
+					}
+					t.i(fn)
+					for mode := 0; mode < 4; mode++ {
+						for _, k := range []int{0, 1} {
+							args := append(append(toks{}, t...), itoa(r.Pick([]int{0, 1, 16})), itoa(mode), itoa(k))
+							emit(Case{Ver: ver, Op: "Fprint", Args: args})
+						}
+					}
+				}
+			}
+		}
+	}
+}
+
 func init() {
 	register("C12", func(tier string, r *Rng, emit func(Case)) {
+		genC12Empty(tier, r, emit)
 		genPrintLazy(tier, r, emit)
 		genC12Long(tier, r, emit)
 		genC12Far(tier, r, emit)
